@@ -78,7 +78,9 @@ FromToOk(e) ==
        /\ IF e.ty = "quat" THEN QuatNorm2(e.obs) = F1
           ELSE MatMul(Rot3Of(e.obs), Transp(Rot3Of(e.obs))) = Idn(3) /\ Det(Rot3Of(e.obs)) = F1
                /\ (Len(e.obs) = 4 => IsAffine(e.obs) /\ TranslOf(e.obs) = VZero(3))
-AngleAxisOk(e) == LET cs == CSOf(e.obs.b, e.obs.k)
+RECURSIVE CSOfList(_, _)
+CSOfList(toks, i) == IF i = 0 THEN <<F1, F0>> ELSE AngAdd(CSOfList(toks, i - 1), CSOf(toks[i][1], toks[i][2]))
+AngleAxisOk(e) == LET cs == CSOfList(e.obs.ang, Len(e.obs.ang))
                   IN /\ Norm2(e.obs.axis) = F1
                      /\ Rodrigues(cs[1], cs[2], e.obs.axis) = MatOfQuat3(e.q)
 LookAtOk(e) == IF e.model = 0 THEN IsLookAt(e.obs, e.eye, e.target, e.up, e.zsign)
